@@ -1,6 +1,7 @@
 SPECIFICATION Spec
 CONSTANTS
   NKeys = 5
+  ReW = {1, 3}
   Vals <- MCVals
   Wt <- MCWt
   Depth = 14
